@@ -24,7 +24,7 @@ import (
 )
 
 // suite "bulk":  bulk T=<entry>,<entry>,... <line> <line> ...
-//   entry ::= <p|a|n|x|t|d><n>/<valid>:<real slot>:<storefail>   the request's table of index names (slot = position)
+//   entry ::= <p|a|n|x|t|d|k><n>/<valid>:<real slot>:<storefail>:<kibana>   the request's table of index names (slot = position)
 //   line  ::= <template>/<i|c|u|o>:<len>:<docOk>:<id>:<slot>
 // The op line is the ABSTRACTION of a concrete body and of its surroundings; the abstraction of every concrete line
 // (kind, docOk) and of every index name (valid, alias target) is computed by the real ExtractIndexAndValidateAction /
@@ -45,12 +45,16 @@ func init() {
 // ---------------------------------------------------------------- index names
 
 type bkIdx struct {
-	tmpl  byte // p: pool index vbp<n%4>; a: alias vbal<n%2> of vbp<n%2>; n: index never seen before vbn<n>; x: no _index member; t: _index is a number; d: a name that is not a simple file name
+	tmpl  byte // p: pool index vbp<n%4>; a: alias vbal<n%2> of vbp<n%2>; n: index never seen before vbn<n>; x: no _index member; t: _index is a number; d: a name that is not a simple file name; k: a .kibana name
 	n     int
 	valid bool
 	real  int
 	fail  bool
+	kib   bool // strings.Contains(name, ".kibana"): the document goes to the (absent) Kibana hook only, nothing stores it
 }
+
+// a name documents can be stored under: valid, not an alias, not a .kibana name
+func (e bkIdx) storable(k int) bool { return e.valid && e.real == k && !e.kib }
 
 var bkInvalidNames = []string{"..", ".", "vb/x", "../vbesc"}
 
@@ -64,6 +68,8 @@ func bkIdxName(e bkIdx) string {
 		return fmt.Sprintf("vbn%d", e.n)
 	case 'd':
 		return bkInvalidNames[e.n%len(bkInvalidNames)]
+	case 'k':
+		return []string{".kibana_1", "vb.kibana"}[e.n%2]
 	}
 	return ""
 }
@@ -132,7 +138,7 @@ func bkAbsEntry(tab []bkIdx, k int) (bool, int, bool) {
 func bkFormatTable(tab []bkIdx) string {
 	var es []string
 	for _, e := range tab {
-		es = append(es, fmt.Sprintf("%c%d/%d:%d:%d", e.tmpl, e.n, b2i(e.valid), e.real, b2i(e.fail)))
+		es = append(es, fmt.Sprintf("%c%d/%d:%d:%d:%d", e.tmpl, e.n, b2i(e.valid), e.real, b2i(e.fail), b2i(e.kib)))
 	}
 	return "T=" + strings.Join(es, ",")
 }
@@ -151,25 +157,26 @@ func bkParseTable(tok string) ([]bkIdx, string) {
 	var tab []bkIdx
 	for _, es := range strings.Split(tok[2:], ",") {
 		p := strings.SplitN(es, "/", 2)
-		if len(p) != 2 || len(p[0]) < 2 || !strings.ContainsRune("panxtd", rune(p[0][0])) {
+		if len(p) != 2 || len(p[0]) < 2 || !strings.ContainsRune("panxtdk", rune(p[0][0])) {
 			return nil, "bad-op"
 		}
 		n, err := strconv.Atoi(p[0][1:])
 		q := strings.Split(p[1], ":")
-		if err != nil || n < 0 || len(q) != 3 {
+		if err != nil || n < 0 || len(q) != 4 {
 			return nil, "bad-op"
 		}
 		v, e1 := strconv.Atoi(q[0])
 		rl, e2 := strconv.Atoi(q[1])
 		fl, e3 := strconv.Atoi(q[2])
-		if e1 != nil || e2 != nil || e3 != nil || v < 0 || v > 1 || fl < 0 || fl > 1 || rl < 0 {
+		kb, e4 := strconv.Atoi(q[3])
+		if e1 != nil || e2 != nil || e3 != nil || e4 != nil || v < 0 || v > 1 || fl < 0 || fl > 1 || rl < 0 || kb < 0 || kb > 1 {
 			return nil, "bad-op"
 		}
-		tab = append(tab, bkIdx{tmpl: p[0][0], n: n, valid: v == 1, real: rl, fail: fl == 1})
+		tab = append(tab, bkIdx{tmpl: p[0][0], n: n, valid: v == 1, real: rl, fail: fl == 1, kib: kb == 1})
 	}
 	for k := range tab {
 		v, rl, ok := bkAbsEntry(tab, k)
-		if !ok || v != tab[k].valid || rl != tab[k].real {
+		if !ok || v != tab[k].valid || rl != tab[k].real || tab[k].kib != strings.Contains(bkIdxName(tab[k]), ".kibana") {
 			return nil, fmt.Sprintf("abstraction-drift index %s: valid=%v real=%d", bkIdxName(tab[k]), v, rl)
 		}
 	}
@@ -192,7 +199,9 @@ var bulkTmpls = []bulkTmpl{
 	{"delete", func(id int, ixf string) string { return fmt.Sprintf(`{"delete":{"_index":"vbp0","_id":"%d"}}`, id) }},
 	{"garbage", func(id int, ixf string) string { return fmt.Sprintf(`this is not json %d`, id) }},
 	{"empty", func(id int, ixf string) string { return `` }},
-	{"doc", func(id int, ixf string) string { return fmt.Sprintf(`{"_vid":%d,"msg":"hello %d","n":%d}`, id, id, id*3) }},
+	{"doc", func(id int, ixf string) string {
+		return fmt.Sprintf(`{"_vid":%d,"msg":"hello %d","n":%d}`, id, id, id*3)
+	}},
 	{"baddoc", func(id int, ixf string) string { return fmt.Sprintf(`{"_vid":%d,"msg":`, id) }},
 	{"bigdoc", func(id int, ixf string) string {
 		return fmt.Sprintf(`{"_vid":%d,"pad":"%s"}`, id, strings.Repeat("x", 63000))
@@ -344,7 +353,7 @@ func bkGenCase(r *rand.Rand, caseNo int, e2e bool) string {
 	if r.Intn(3) == 0 {
 		for c := 1 + r.Intn(2); c > 0; c-- {
 			invalid = append(invalid, len(tab))
-			tab = append(tab, bkIdx{tmpl: "xtd"[r.Intn(3)], n: r.Intn(8)})
+			tab = append(tab, bkIdx{tmpl: "xtdk"[r.Intn(4)], n: r.Intn(8)})
 		}
 	}
 	for k := range tab {
@@ -353,11 +362,12 @@ func bkGenCase(r *rand.Rand, caseNo int, e2e bool) string {
 			panic("bulk gen: alias target missing from the table")
 		}
 		tab[k].valid, tab[k].real = v, rl
+		tab[k].kib = strings.Contains(bkIdxName(tab[k]), ".kibana")
 	}
 	// the store refuses: one real index (3 in 10), every index (1 in 20)
 	var reals []int
 	for k, e := range tab {
-		if e.valid && e.real == k {
+		if e.storable(k) {
 			reals = append(reals, k)
 		}
 	}
@@ -504,6 +514,8 @@ func bkSpec(tab []bkIdx, al []bkAbs) ([]bkItem, int) {
 				it.want = 'f' // no such index can exist
 			} else if d.ln >= 63000 {
 				it.want = 't'
+			} else if tab[a.slot].kib {
+				it.want = 'f' // nothing stores a .kibana document
 			} else if d.docOk {
 				it.want = 'c'
 			}
@@ -584,6 +596,12 @@ func bkTags(tab []bkIdx, items []bkItem) []string {
 	} else if failSome {
 		tags = append(tags, "store-refuses-all-indexes")
 	}
+	for _, it := range items {
+		if it.docID >= 0 && tab[it.slot].valid && tab[it.slot].kib {
+			tags = append(tags, "kibana-index-name")
+			break
+		}
+	}
 	for i, it := range items {
 		if it.docID >= 0 && !tab[it.slot].valid {
 			before, after := false, false
@@ -644,6 +662,10 @@ func bkStatusLetters(resp map[string]interface{}) (string, string, int) {
 			sb.WriteByte('t')
 			one.WriteByte('t')
 			nfail++
+		case 503:
+			sb.WriteByte('u')
+			one.WriteByte('u')
+			nfail++
 		default:
 			sb.WriteString(fmt.Sprintf("?%d", st))
 			one.WriteByte('x')
@@ -677,7 +699,7 @@ func execBulk(line string) Result {
 
 	// ---- the store refuses the chosen indexes: no segstore may exist for them, and none can be created
 	for k, e := range tab {
-		if e.fail && e.valid && e.real == k {
+		if e.fail && e.storable(k) {
 			name := bkIdxName(e)
 			if bkDirty[name] {
 				writer.DeleteVirtualTableSegStore(name)
@@ -695,10 +717,10 @@ func execBulk(line string) Result {
 		bkObserved = append(bkObserved, bkObs{vt, string(record)})
 		return nil
 	}
-	processed, resp, _ := eswriter.HandleBulkBody([]byte(body), nil, 0, 0, false)
+	processed, resp, bulkErr := eswriter.HandleBulkBody([]byte(body), nil, 0, 0, false)
 	hooks.GlobalHooks.AfterWritingToSegment = nil
 	for k, e := range tab {
-		if !(e.valid && e.real == k) {
+		if !e.storable(k) {
 			continue
 		}
 		name := bkIdxName(e)
@@ -726,7 +748,7 @@ func execBulk(line string) Result {
 	}
 	realSlot := func(vt string) int {
 		for k, e := range tab {
-			if e.valid && e.real == k && bkIdxName(e) == vt {
+			if e.storable(k) && bkIdxName(e) == vt {
 				return k
 			}
 		}
@@ -760,15 +782,20 @@ func execBulk(line string) Result {
 	for _, k := range keys {
 		gs = append(gs, fmt.Sprintf("%d:%d=%s", k.real, k.slot, strings.Join(groups[k], ",")))
 	}
-	res := Result{Out: fmt.Sprintf("items=%s errors=%d processed=%d stored=%s%s", gotOut, errFlag, processed, strings.Join(gs, ";"), unknown)}
+	res := Result{Out: fmt.Sprintf("items=%s errors=%d processed=%d allfailed=%d stored=%s%s", gotOut, errFlag, processed, b2i(bulkErr != nil), strings.Join(gs, ";"), unknown)}
 
 	// ---- the property on the real code, from the independent per-action specification
 	w := bkWantString(items)
 	// an item whose batch the store refuses must not be answered created; with which status is not prescribed
 	// (that it IS answered created is reported below as bulk-store/store-refused-batch-still-acknowledged)
+	// likewise an item for a .kibana name must not be answered created (reported below as
+	// bulk-store/kibana-document-acknowledged-and-dropped); that it fails with 400 is the model's business
 	refusedItem := map[int]bool{}
 	for i, it := range items {
 		if it.want == 'c' && tab[tab[it.slot].real].fail {
+			refusedItem[i] = true
+		}
+		if it.docID >= 0 && tab[it.slot].valid && tab[it.slot].kib && it.want == 'f' {
 			refusedItem[i] = true
 		}
 	}
@@ -866,6 +893,8 @@ func execBulk(line string) Result {
 		}
 		want := tab[tab[it.slot].real]
 		switch {
+		case len(at) == 0 && tab[it.slot].kib:
+			fail("bulk-store/kibana-document-acknowledged-and-dropped", fmt.Sprintf("item %d (index %s) was answered 201 with errors=%d, but nothing stores a .kibana document here: its document (line id %d) went nowhere", i, bkIdxName(tab[it.slot]), errFlag, it.docID))
 		case len(at) == 0 && want.fail:
 			fail("bulk-store/store-refused-batch-still-acknowledged", fmt.Sprintf("item %d (index %s) was answered 201 with errors=%d, but the store refused the batch of index %s: its document (line id %d) was not stored", i, bkIdxName(tab[it.slot]), errFlag, bkIdxName(want), it.docID))
 		case len(at) == 0:
@@ -902,6 +931,7 @@ func genBulkE2E(r *rand.Rand, n int, tier string) []string {
 		}
 		for j := range tab {
 			tab[j].valid, tab[j].real, _ = bkAbsEntry(tab, j)
+			tab[j].kib = false
 		}
 		var bodies []string
 		for b := 0; b < k; b++ {
@@ -927,7 +957,7 @@ func bkRunWorker(tab []bkIdx, request string, procs int) (string, []map[int]int,
 	fmt.Fprintf(&in, "alias vbp0 vbal0\nalias vbp1 vbal1\n")
 	var reals []int
 	for k, e := range tab {
-		if e.valid && e.real == k {
+		if e.storable(k) {
 			reals = append(reals, k)
 			if e.fail {
 				fmt.Fprintf(&in, "block %s\n", bkIdxName(e))
@@ -956,6 +986,12 @@ func bkRunWorker(tab []bkIdx, request string, procs int) (string, []map[int]int,
 	case err := <-done:
 		if err != nil {
 			what := bkCrashLines(stderr.String())
+			if strings.Contains(what, "query.initSyncSegMetaForAllIds") && strings.Contains(what, "pkg/virtualtable.") {
+				// not the engine's fault: bootEngine (engine.go) starts query.InitQueryNode BEFORE vtable.InitVTable, the
+				// reverse of cmd/startup; the goroutine InitQueryNode starts can read vtable's file name while InitVTable
+				// is writing it (torn string read → SIGSEGV) before any request is handled.  Start the worker again.
+				return "", nil, &Result{Out: "worker-boot-race"}
+			}
 			return "", nil, &Result{Out: "worker-died", Fails: []PropFail{{Sig: "bulk-e2e/worker-crash" + bkCrashClass(what), Msg: fmt.Sprintf("engine worker exited abnormally while handling the request(s) (every acknowledged, unflushed document is lost): %v: %s", err, what)}}, Nontrivial: true}
 		}
 	case <-time.After(120 * time.Second):
@@ -1042,6 +1078,8 @@ func bkLetters(sts []int) string {
 			sb.WriteByte('f')
 		case 413:
 			sb.WriteByte('t')
+		case 503:
+			sb.WriteByte('u')
 		default:
 			sb.WriteString(fmt.Sprintf("?%d", st))
 		}
@@ -1053,7 +1091,7 @@ func bkLetters(sts []int) string {
 func bkJudgeE2E(tab []bkIdx, founds []map[int]int, reqs [][]bkItem, gots []string, res *Result, where string) string {
 	var reals []int
 	for k, e := range tab {
-		if e.valid && e.real == k {
+		if e.storable(k) {
 			reals = append(reals, k)
 		}
 	}
@@ -1118,6 +1156,8 @@ func bkJudgeE2E(tab []bkIdx, founds []map[int]int, reqs [][]bkItem, gots []strin
 				}
 			}
 			switch {
+			case total == 0 && tab[it.slot].kib:
+				fail("kibana-document-acknowledged-and-dropped", fmt.Sprintf("request %d item %d (index %s) was answered 201, but nothing stores a .kibana document here: its document _vid=%d is not found after flush", ri, i, bkIdxName(tab[it.slot]), it.docID))
 			case total == 0 && tab[wantSlot].fail:
 				fail("store-refused-batch-still-acknowledged", fmt.Sprintf("request %d item %d (index %s) was answered 201, but the store refused the batch of index %s: its document _vid=%d is not found after flush", ri, i, bkIdxName(tab[it.slot]), bkIdxName(tab[wantSlot]), it.docID))
 			case total == 0:
@@ -1183,8 +1223,8 @@ func execBulkE2E(line string) Result {
 	// started again, so that the case itself is still judged
 	var crashes []PropFail
 	first, founds, bad := bkRunWorker(tab, request, procs)
-	for try := 0; try < 3 && bad != nil && len(bad.Fails) == 1 && strings.HasPrefix(bad.Fails[0].Sig, "bulk-e2e/worker-crash/"); try++ {
-		crashes = append(crashes, bad.Fails[0])
+	for try := 0; try < 3 && bad != nil && (bad.Out == "worker-boot-race" || (len(bad.Fails) == 1 && strings.HasPrefix(bad.Fails[0].Sig, "bulk-e2e/worker-crash/"))); try++ {
+		crashes = append(crashes, bad.Fails...)
 		first, founds, bad = bkRunWorker(tab, request, procs)
 	}
 	if bad != nil {
